@@ -157,12 +157,12 @@ func c17Run(t *testing.T, cfg c17Config) c17Result {
 				}
 			} else {
 				n := 0
-				w.Router.OnSend = func(ev sim.Event) {
+				w.Router.SetOnSend(func(ev sim.Event) {
 					if n == cfg.When {
 						dcancel()
 					}
 					n++
-				}
+				})
 			}
 			t0 := since()
 			conn, err := d.Dial(dctx, w.ServerAddr, w.ClientTLS(), cconf)
@@ -192,7 +192,7 @@ func c17Run(t *testing.T, cfg c17Config) c17Result {
 					fail("dial-early", "Dial towards a silent peer gave up after %v, before the 5 s handshake idle timeout", took)
 				}
 			}
-			w.Router.OnSend = nil
+			w.Router.SetOnSend(nil)
 			w.Router.SetBlackhole(sim.S2C, false)
 			w.Router.SetBlackhole(sim.C2S, false)
 			time.Sleep(40 * time.Second)
